@@ -1531,3 +1531,33 @@ Example ex_virtual_gains_producer :
   node_sig_tokens (node_def ex_d2 ex_all) = [TU64 3] /\
   node_sig_tokens (node_def ex_d3 ex_all) = [TU64 3; TStr [67;46;97;108;108]].
 Proof. vm_compute. repeat split; reflexivity. Qed.
+
+(* ---------- a source replaced by another file: the inode is one of the compared fields ---------- *)
+
+Lemma info_eqb_inode a b : info_eqb a b = true -> fi_inode a = fi_inode b.
+Proof. intros H. apply info_eqb_true in H. tauto. Qed.
+
+(* same size, same modification time, same device - but another inode: the stored value of the input node is
+   no longer valid *)
+Corollary source_replaced_detected w w' n v :
+  wf_world w -> wf_world w' -> file_valid w n v = true ->
+  fi_inode (stat_w w n) <> fi_inode (stat_w w' n) -> file_valid w' n v = false.
+Proof.
+  intros W W' V D. apply (file_valid_detects w w' n v W W' V).
+  destruct (info_eqb (stat_w w n) (stat_w w' n)) eqn:E; [|reflexivity].
+  apply info_eqb_inode in E. contradiction.
+Qed.
+
+(* src of the example replaced by a file whose stamp differs from the recorded one in the inode only *)
+Definition ex_replaced_stamp : fileinfo :=
+  let s := stat_w (bs_world ex_state) ex_src in
+  mkFI (fi_device s) (fi_inode s + 1000) (fi_mode s) (fi_size s) (fi_sec s) (fi_nsec s) (fi_checksum s).
+Example ex_source_replaced :
+  let w' := put (bs_world ex_state) ex_src [57] ex_replaced_stamp in
+  fi_size (stat_w w' ex_src) = fi_size (stat_w (bs_world ex_state) ex_src) /\
+  fi_sec (stat_w w' ex_src) = fi_sec (stat_w (bs_world ex_state) ex_src) /\
+  fi_nsec (stat_w w' ex_src) = fi_nsec (stat_w (bs_world ex_state) ex_src) /\
+  fi_inode (stat_w w' ex_src) <> fi_inode (stat_w (bs_world ex_state) ex_src) /\
+  file_valid (bs_world ex_state) ex_src (val_of ex_state (KN ex_src)) = true /\
+  file_valid w' ex_src (val_of ex_state (KN ex_src)) = false.
+Proof. vm_compute. repeat split; try reflexivity. discriminate. Qed.
